@@ -225,7 +225,14 @@ def main(mod):
             why = next((f.get("detail") for c in cases for f in mod.judge(c, results[c["id"]]) if f["class"] == "discard"), None)
             raise HarnessError("%d of %d cases could not be evaluated (their valid-by-construction inputs do not build even in a clean "
                                "directory), so this run decides nothing; first reason: %s" % (discarded, len(cases), json.dumps(why)[:1500]))
-        det = determinism_selftest(mod, cases, results, 8 if a.tier == "quick" else 48)
+        try:
+            det = determinism_selftest(mod, cases, results, 8 if a.tier == "quick" else 48)
+        except HarnessError as e:
+            if not violations:
+                raise
+            # the system under test itself is not reproducible: that may well be the violation being reported
+            det = {"cases": 0, "mismatches": str(e)[:300]}
+            print("note: %s" % str(e)[:300])
         # ---- report
         for kid, h in known_hits.items():
             print("KNOWN-FINDING: property=%s %s (%s; matched %d case(s), e.g. %s)" % (
